@@ -289,6 +289,7 @@ def main(check, argv=None):
     ap.add_argument('--no-minimise', action='store_true')
     ap.add_argument('--show', type=int, default=None, help='print the scenario of this run index and exit')
     ap.add_argument('--verbose', action='store_true')
+    ap.add_argument('--focus', default=None, help='debugging aid: only report violations whose class starts with one of these comma separated prefixes')
     args = ap.parse_args(argv)
 
     faulthandler.enable()
@@ -358,6 +359,9 @@ def main(check, argv=None):
         if r['probes']:
             shapes_nontrivial.add(r['shape'])
         unknown, known = classify(check, r)
+        if args.focus:
+            unknown = [v for v in unknown if any((v['cls'] + ' ' + ' '.join(f'{k}={x}' for k, x in v['facts'].items())).find(f) >= 0 for f in args.focus.split(','))]
+            unknown.sort(key=lambda v: 0)
         for kid, entry in known.items():
             known_seen.setdefault(kid, {'entry': entry, 'runs': 0})
             known_seen[kid]['runs'] += 1
@@ -370,7 +374,7 @@ def main(check, argv=None):
 
     cls_count = {}
     for r, unknown in violating:
-        for c in sorted({v['cls'] + ''.join(f' {k}={v["facts"][k]}' for k in ('exc', 'where') if v['facts'].get(k)) for v in unknown}):
+        for c in sorted({v['cls'] + ''.join(f' {k}={v["facts"][k]}' for k in ('converter', 'key', 'exc', 'where') if v['facts'].get(k)) for v in unknown}):
             cls_count[c] = cls_count.get(c, 0) + 1
     if cls_count:
         print(f'unknown violation classes (runs): {json.dumps(cls_count, sort_keys=True)}')
